@@ -4,7 +4,7 @@
    (rejected ones raise and change nothing); `spec_run` is the abstract map: one slot per unordered
    pair, the last accepted write wins. *)
 From Coq Require Import String List Bool Arith ZArith.
-From Hpotk Require Import Base.Result Base.Str Sim.Model Sim.Proofs.
+From Hpotk Require Import Base.Result Base.Str Sim.Model Sim.Proofs Sim.Csv.
 Import ListNotations.
 
 (* after ANY sequence of set operations: for any two keys in either order, the value most recently
@@ -57,6 +57,14 @@ Proof. exact meta_roundtrip. Qed.
 Theorem C15_metadata_reserved_rejected : forall (m : meta) (k v : string),
   In (k, v) m -> reserved k = true \/ reserved v = true -> metadata_to_str m = Err ValueError.
 Proof. exact meta_reserved_rejected. Qed.
+
+(* the CSV row codec (csv module, excel dialect, QUOTE_MINIMAL; writer and the reader state machine
+   are modelled): every non-empty row whose fields contain no line breaks - commas, quotes, blanks,
+   hash signs, non-ASCII bytes, empty fields allowed - is read back unchanged.  What remains an oracle
+   for the lossless round trip is only repr / float() of binary64 and gzip. *)
+Theorem C15_csv_row_roundtrip : forall (fields : list string),
+  fields <> [] -> forallb no_break fields = true -> read_row (write_row fields) = fields.
+Proof. exact csv_row_roundtrip. Qed.
 
 (* non-vacuity: a history with reversed key order, an overwrite, a self pair, a rejected negative
    value and a zero *)
